@@ -1442,6 +1442,10 @@ class Engine:
                     out[name] = {"hex": bytes(bs).hex()}
                 elif kind == "choice":
                     out[name] = h
+                elif kind == "tokens":
+                    n = m.eval(T(h.length), model_completion=True).as_long()
+                    out[name] = [m.eval(z3.Select(h.arrays["v"], z3.IntVal(k)), model_completion=True).as_long()
+                                 for k in range(min(max(n, 0), 64))]
             except Exception as e:  # model extraction is best-effort
                 out[name] = {"error": repr(e)}
         return out
